@@ -686,7 +686,8 @@ def rule_N3(ctx) -> None:
     loc = mod.loc(lv)
     # on every path: a read that came back empty ends in EOFError, and a byte is only used (its value enters the result)
     # on paths that found it non-empty - however the emptiness test is spelled (if not b / while byte / len(b) < 1)
-    paths = Interp(mod, fork_while=True, fork_ifexp=True).run(lv)
+    # two iterations of the loop, every read a value of its own: a read at the end of the body is used by the next iteration
+    paths = Interp(mod, fork_while=True, fork_ifexp=True, unroll=2, fresh_calls=["read", "read1"]).run(lv)
     ctx.count(len(paths))
 
     def is_read(t: Sym) -> bool:
@@ -696,39 +697,45 @@ def rule_N3(ctx) -> None:
     problem = None
     excs = set()
     for p in paths:
-        reads = [e for e in p.events if e.kind == "call" and is_read(e.data)]
+        reads = []
+        for e in p.events:
+            if e.kind == "call" and is_read(e.data) and e.data not in reads:
+                reads.append(e.data)
         if not reads:
             continue
         n_reads += 1
-        # emptiness decisions: truthiness atoms of the read result (possibly `first or read`) or len() comparisons of it
-        empties = []
-        # `first or stream.read(1)`: decided operand by operand
-        or_terms = {t for k in p.valuation for t in walk(k) if t[0] == "op" and t[1] == "or" and any(is_read(x) for x in t[2:])}
-        for t in or_terms:
-            vals = [p.valuation.get(x) for x in t[2:]]
-            if any(v is True for v in vals):
-                empties.append(False)
-            elif all(v is False for v in vals):
-                empties.append(True)
-        for k, v in p.valuation.items():
-            base = k
-            if base[0] == "op" and base[1] == "or" and any(is_read(x) for x in base[2:]):
-                empties.append(not v)
-            elif is_read(base) and not or_terms:
-                empties.append(not v)
-            elif base[0] == "op" and base[1] in ("<", "==") and any(x[0] == "call" and x[1] == N("len") and x[2] and (is_read(x[2][0]) or any(is_read(y) for y in walk(x[2][0]))) for x in base[2:]):
-                # len(b) < 1 / len(b) == 0 true means empty; 0 < len(b) true means non-empty
-                lhs_len = base[2][0] == "call"
-                empties.append(v if lhs_len else not v)
-        uses = any(k[0] == "op" and k[1] in ("&", "<") and any(t[0] in ("sub", "call") and any(is_read(y) for y in walk(t)) for t in walk(k)) and not any(k is e_ for e_ in ()) 
-                   for k in p.valuation if not is_read(k) and not (k[0] == "op" and k[1] == "or"))
-        if any(empties):
-            if p.outcome != "raise":
-                problem = problem or ("empty-read-not-raised", f"a path on which the read came back empty ends in {p.outcome}")
-            else:
-                excs.add(dotted(p.value[1]) if p.value is not None and p.value[0] == "call" else (show(p.value) if p.value is not None else ""))
-        elif not empties and (uses or p.outcome == "return"):
-            problem = problem or ("unguarded-use", "the byte that was read is used on a path that never tested it for emptiness")
+        for R in reads:
+            def has(t: Sym) -> bool:
+                return any(x == R for x in walk(t))
+            # emptiness decisions about this read: `first or R` operand by operand, R itself, len(R) comparisons
+            empty = None
+            or_terms = {t for k in p.valuation for t in walk(k) if t[0] == "op" and t[1] == "or" and R in t[2:]}
+            for t in or_terms:
+                vals = [p.valuation.get(x) for x in t[2:]]
+                if any(v is True for v in vals):
+                    empty = False
+                elif all(v is False for v in vals):
+                    empty = True
+            if not or_terms and R in p.valuation:
+                empty = not p.valuation[R]
+            for k, v in p.valuation.items():
+                if k[0] == "op" and k[1] in ("<", "==") and len(k) == 4 and any(x[0] == "call" and x[1] == N("len") and x[2] and has(x[2][0]) for x in k[2:]):
+                    lhs_len = k[2][0] == "call"
+                    e_ = v if lhs_len else not v
+                    empty = e_ if empty is None else (empty or e_)
+            # uses of the byte: it enters a computation decided on the path or the returned value
+            used = any(has(k) and k != R and not (k[0] == "op" and k[1] == "or") and not (k[0] == "op" and k[1] in ("<", "==") and any(x[0] == "call" and x[1] == N("len") for x in k[2:]))
+                       for k in p.valuation)
+            if p.outcome == "return" and p.value is not None and p.value[0] == "tuple" and p.value[1] and has(p.value[1][0]):
+                used = True
+            if empty is True:
+                if p.outcome != "raise":
+                    problem = problem or ("empty-read-not-raised", f"a path on which {show(R)} came back empty ends in {p.outcome}")
+                else:
+                    excs.add(dotted(p.value[1]) if p.value is not None and p.value[0] == "call" else (show(p.value) if p.value is not None else ""))
+            elif empty is None and used:
+                problem = problem or ("unguarded-use", f"the byte read by {show(R)} is used on a path that never tested it for emptiness (a varint cut off after a continuation byte is completed "
+                                                       "with zero bits instead of raising)")
     if not n_reads:
         raise AnalysisError("load_varint: no stream read found")
     if problem:
